@@ -13,7 +13,7 @@ EXPLANATION = (
     "That restore restores the right VALUES is NOT decided."
 )
 ASSUMPTIONS = ["clone() of heads/frontiers captures their full value", "BTreeSet iteration is canonical order"]
-FLOOR = 40
+FLOOR = 44
 
 CO = "warp_core::coordinator::"
 WR = CO + "WorldlineRuntime"
@@ -52,6 +52,40 @@ def checkpoint_copy_rules(rep, prog, rid, only_fields=None):
     rep.check(n_copy >= (1 if only_fields else 8), rid, "checkpoint-copies:count", "%d field copies examined in the checkpoint tree" % n_copy, "only %d field copies found in the checkpoint tree" % n_copy, site=ck.loc())
 
 
+def undo_journal_rules(rep, prog, rid):
+    """An undo journal restores correctly only if it is replayed in the reverse of the order it was recorded in (two entries
+    may save the previous value of the same key: only the OLDEST saved value is the pre-pass value).  Rule: the journal's entry
+    vector is appended at the back by its recorders and every consumer that restores from it traverses it back-to-front."""
+    J = CO + "ReceiptCorrelationRollback"
+    E = CO + "ReceiptCorrelationRollbackEntry"
+    prog.adt(J)
+    ent = prog.adt(E)
+    saved = [f["n"] for f in ent["variants"][0]["fields"] if f["n"].startswith("previous_")]
+    rep.check(len(saved) >= 5, rid, "undo-journal:entry-saves-previous-values", "%d previous_* fields" % len(saved), "ReceiptCorrelationRollbackEntry no longer carries previous_* fields", site=None)
+    recorders, consumers = [], []
+    for f in prog.fns.values():
+        if f.crate != "warp_core" or "::tests::" in f.id:
+            continue
+        for bi, t in f.calls():
+            callee = f.callee_of(t) or ""
+            g = t["fn"].get("g") or ""
+            if E.rsplit("::", 1)[-1] not in g:
+                continue
+            if re.search(r"Vec::<[^>]*ReceiptCorrelationRollbackEntry>::(push|insert|extend|append)", g):
+                recorders.append((f, bi, g.rsplit("::", 1)[-1]))
+            if re.search(r"Iterator>::next$|Vec::<[^>]*ReceiptCorrelationRollbackEntry>::pop$|DoubleEndedIterator>::next_back$", g) and (
+                    "Drain<" in g or "Iter<" in g or "IntoIter<" in g or g.endswith("::pop")):
+                consumers.append((f, bi, g))
+    rep.check(bool(recorders) and all(k == "push" for f, bi, k in recorders), rid, "undo-journal:recorded-at-back",
+              "%d recorder site(s), all Vec::push" % len(recorders), "journal entries are recorded by %s" % sorted({k for f, bi, k in recorders}), site=recorders[0][0].loc() if recorders else None)
+    rep.check(bool(consumers), rid, "undo-journal:consumer-found", "%d traversal site(s)" % len(consumers), "no traversal of the undo journal found (rollback missing?)", site=None)
+    for f, bi, g in consumers:
+        lifo = ("Rev<" in g and g.endswith("::next")) or g.endswith("::pop") or (g.endswith("::next_back") and "Rev<" not in g)
+        rep.check(lifo, rid, "undo-journal:replayed-newest-first:%s" % f.name, "traversal is %s" % g.split(" as ")[0][:90],
+                  "%s replays the undo journal oldest-first (%s): when two entries saved the previous value of the same key, the newer entry's "
+                  "saved value (not the pre-pass value) is what remains after rollback" % (f.name, g.split(" as ")[0][:90]), site=f.loc(f.blocks[bi]["t"].get("line")))
+
+
 def run(ctx):
     rep = ctx.report
     prog = ctx.prog("trusted")
@@ -61,6 +95,7 @@ def run(ctx):
     rep.rule("C09.R4", "A4/A7 engine swap guard: saved set covers enter's and the commit body's writes; Drop restores; armed cleared")
     rep.rule("C09.R5", "A1 exactly-one advance: one global_tick assignment after the loop; advance_tick on the success path")
     rep.rule("C09.R6", "A8/A1 canonical head order from the ordered runnable set; faulted heads filtered")
+    rep.rule("C09.R8", "A1 undo journal: receipt-correlation rollback entries are recorded at the back and replayed newest-first")
     rep.rule("C09.R7", "A6 fault scoping total over RuntimeError; fault recording only on the failure arms")
 
     st = prog.fn(CO + "SchedulerCoordinator::super_tick_inner")
@@ -275,6 +310,9 @@ def run(ctx):
               "retain closure consults faulted_heads", "retain closure does not read faulted_heads", site=rf.loc())
     st0 = [bi for bi, p, l in places_read_in(st) if any(s == (WR, "WorldlineRuntime", "runtime_fault") for s in field_steps(p))]
     rep.check(bool(st0), "C09.R6", "pass:runtime-fault-blocks", "an active runtime fault blocks the pass", "runtime_fault is not consulted at pass entry", site=st.loc())
+
+    # ---- R8
+    undo_journal_rules(rep, prog, "C09.R8")
 
     # ---- R7
     sf = prog.fn(CO + "scheduler_fault_scope_for_error")
